@@ -62,3 +62,31 @@ Ltac arith_ok :=
 
 Lemma MAXU_pos : 0 < MAXU. Proof. reflexivity. Qed.
 Global Opaque MAXU.
+
+(* monadic inversion of `H : <handler body> = Ok _`: splits binds, checks and pattern lets *)
+Ltac minv1 H :=
+  match type of H with
+  | Err _ = Ok _ => discriminate H
+  | bind ?r _ = Ok _ =>
+      let x := fresh "x" in let Hx := fresh "Hx" in
+      destruct r as [x|] eqn:Hx; [cbn [bind] in H | discriminate H]
+  | (if ?b then _ else _) = Ok _ =>
+      let Hb := fresh "Hb" in destruct b eqn:Hb; [|try discriminate H]
+  | (let '(_, _) := ?p in _) = Ok _ => destruct p
+  | match ?x with _ => _ end = Ok _ => destruct x eqn:?; try discriminate H
+  end.
+Ltac minv H := cbv beta zeta iota in H; repeat (minv1 H; cbv beta zeta iota in H).
+
+(* invert every monadic hypothesis in the context *)
+Ltac minv_all :=
+  repeat match goal with
+  | H : ?a = ?a |- _ => clear H
+  | H : Err _ = Ok _ |- _ => discriminate H
+  | H : Ok _ = Err _ |- _ => discriminate H
+  | H : bind _ _ = Ok _ |- _ => minv1 H; cbv beta zeta in H
+  | H : (if _ then _ else _) = Ok _ |- _ => minv1 H; cbv beta zeta in H
+  | H : (let '(_, _) := _ in _) = Ok _ |- _ => minv1 H; cbv beta zeta in H
+  | H : Ok ?a = Ok ?b |- _ => first [ is_var b; injection H as H; subst b
+                                   | is_var a; injection H as H; subst a
+                                   | injection H as H ]
+  end.
